@@ -1,8 +1,8 @@
 (* C09 — property theorems only.  Only the leader writes status; the newest status survives a
    leadership change.  Quantifiers: every sequence of submissions before and after the single
    Enable, every iteration order [pi] of the saved-requests map. *)
-From Coq Require Import List Permutation.
-From NGF Require Import C09.Model C09.Proofs.
+From Coq Require Import List Permutation String.
+From NGF Require Import C09.Model C09.Proofs C09.Wire C09.WireProofs.
 Import ListNotations.
 
 (* A replica that never becomes leader never writes. *)
@@ -20,3 +20,51 @@ Theorem C09_leader_history :
     snd (run pi init (ops1 ++ Enable :: ops2)) =
       map (fun _ => []) ops1 ++ flush_out l :: map update_out ops2.
 Proof. exact leader_history. Qed.
+
+(* ---------------------------------------------------------------- the wiring (Wire.v)
+
+   [w] is what the harness reads off internal/mode/static/manager.go (every mgr.Add with the chain of
+   runnable types, measured on the real objects; which identifier the handler gets as statusUpdater and
+   where it comes from).  [check_case (Real w) = []] is literally what bin/check evaluates on it: the
+   model of package runnables agrees with the measurements (code 1 absent) and the oracle holds (code 2
+   absent).  Quantifiers: every such wiring, every sequence of manager events Start / Elected, every
+   interleaving of these events with UpdateGroup submissions, every iteration order [pi]. *)
+
+(* Enable of the handler's status updater is invoked only by an event that leaves the replica elected. *)
+Theorem C09_wiring_enable_only_when_elected :
+  forall w, check_case (Real w) = [] ->
+  forall tr s inv, In (s, inv) (mrun w minit tr) -> In (enable_of w) inv -> m_elected s = true.
+Proof. exact wiring_enable_only_when_elected. Qed.
+
+(* ... and it is invoked: the first election after Start calls it (so the saved statuses are flushed,
+   C09_leader_history). *)
+Theorem C09_wiring_enable_on_election :
+  forall w, check_case (Real w) = [] ->
+  forall tr, ~ In MElected tr -> In MStart tr ->
+  In (enable_of w) (snd (mstep w (mfinal w minit tr) MElected)) /\
+  m_elected (fst (mstep w (mfinal w minit tr) MElected)) = true.
+Proof. exact wiring_enable_on_election. Qed.
+
+(* Wiring composed with the LeaderAwareGroupUpdater model: a replica that is never elected performs no
+   status write, whatever it submits and however often Start is delivered. *)
+Theorem C09_wiring_not_elected_never_writes :
+  forall w, check_case (Real w) = [] ->
+  forall pi evs, never_elected evs -> forall x, In x (sys_writes pi w evs) -> x = nil.
+Proof. exact wiring_not_elected_never_writes. Qed.
+
+(* The variants the oracle must reject do violate the two statements above in the model:
+   Enable wrapped in LeaderOrNonLeader is invoked by Start on a replica that is not elected and then
+   writes; a handler given the plain Updater writes without being elected. *)
+Theorem C09_wiring_wrapped_refuted :
+  corr wrapped_wiring = true /\ oracle wrapped_wiring = false /\ check_case (Real wrapped_wiring) = [2] /\
+  (exists tr s inv, In (s, inv) (mrun wrapped_wiring minit tr) /\
+                    In (enable_of wrapped_wiring) inv /\ m_elected s = false) /\
+  (exists evs, never_elected evs /\
+               exists x, In x (sys_writes (fun l => l) wrapped_wiring evs) /\ x <> nil).
+Proof. exact wrapped_wiring_refuted. Qed.
+
+Theorem C09_wiring_raw_updater_refuted :
+  corr raw_wiring = true /\ oracle raw_wiring = false /\ check_case (Real raw_wiring) = [2] /\
+  (exists evs, never_elected evs /\
+               exists x, In x (sys_writes (fun l => l) raw_wiring evs) /\ x <> nil).
+Proof. exact raw_wiring_refuted. Qed.
